@@ -290,6 +290,27 @@ def unit_client(ctx):
     return {"lines": open(res).read().splitlines(), "inputs": hist}
 
 
+def unit_client_ka(ctx):
+    """C33: client histories with the keep-alive loop running (KeepAlive 1-3 s), compared with the
+    keep-alive wrapper of the client model (Client/ClKeepalive.v); corpus witnesses first."""
+    d = core.shared_dir("clientka", ctx.tier, ctx.seed)
+    res, hist, trace = os.path.join(d, "ka.res"), os.path.join(d, "ka.hist"), os.path.join(d, "ka.impl")
+    if not cached(res):
+        n = budget(ctx, 1500, 30000)
+        rc, out, _ = core.run("%s gen-cl-ka %d %d %s.gen" % (core.DRIVER, ctx.seed + 33, n, hist))
+        if rc != 0:
+            return {"lines": [], "error": "gen-cl-ka failed: " + out[-2000:]}
+        corpus = os.path.join(core.VERIF, "corpus", "ka.hist")
+        core.run("cat %s %s.gen > %s 2>/dev/null || cp %s.gen %s" % (corpus, hist, hist, hist, hist))
+        err = run_sharded(ctx.bin("drv_client.test"), hist, trace, "drv_client")
+        if err:
+            return {"lines": [], "error": err}
+        rc, out, _ = core.run("%s cmp-cl %s %s > %s.tmp && mv %s.tmp %s" % (core.DRIVER, hist, trace, res, res, res))
+        if rc != 0:
+            return {"lines": [], "error": "cmp-cl failed: " + out[-2000:]}
+    return {"lines": open(res).read().splitlines(), "inputs": hist}
+
+
 CL_RULE = ("model-guided random walks of the client library (ocaml/gen_cl.ml: API calls of every kind, answers of a scripted "
            "gateway to the pending transactions with losses, unsolicited/unknown/malformed datagrams, broker messages on "
            "subscribed topics incl. QoS 2 with repeated PUBLISH/PUBREL, time advances around timer deadlines), executed on the "
@@ -485,6 +506,17 @@ PROPS.update({
         "assumptions": GW_ASSUME + CL_ASSUME + ["configuration sanity and broker conformance as in C24 (wf_cfg', wf_event'); client "
                                                 "configuration with a non-empty client ID and credentials that fit a datagram (wf_cl_cfg)"],
     },
+    "C28": {
+        "theorems": ["C28_all_histories"],
+        "drivers": ["drv_client.test"],
+        "units": [Unit("drv_client", unit_client)],
+        "mismatch_kinds": [r"RET", r"EXIT", r"TIME", r"PANIC", r"LEAK", r"MISSING", r"EXTRA"],
+        "rule": CL_RULE + "; the monitor cmon (every call returns by its bound, the client is gone after Close / the gateway's "
+                          "DISCONNECT by its deadline) runs on the implementation's return and exit times, and the driver reports "
+                          "goroutines that outlive the client (LEAK)",
+        "assumptions": CL_ASSUME + ["the model's timer loop does not run out of fuel within one advance (executable adv_ok, counted per "
+                                    "run as side_condition_failed_steps)"],
+    },
     "C17": {
         "theorems": ["C17_checker_sound", "C17_all_histories"],
         "drivers": ["drv_client.test"],
@@ -543,10 +575,12 @@ def unit_gw_multi(ctx):
                 if h not in solo_div:
                     lines.append("FAIL C15 differs-from-solo-run h=%d (group of histories %d..%d) :: alone: agrees with the model; "
                                  "concurrently: %s" % (h, h - h % 3, h - h % 3 + 2, l[:300]))
-    # any failure of a single-session property observed in a concurrent session is a C15 failure too
+    # any failure of a single-session property observed in a concurrent session is a C15 failure too,
+    # unless the single-session model shows the same failure in the same step (model=fails: a recorded
+    # finding of that property, not interference)
     lines = [l for l in lines if not l.startswith("FAIL ") or l.startswith("FAIL C15 ")] + \
             ["FAIL C15 in-concurrent-session " + l[5:] for l in lines if l.startswith("FAIL ") and
-             not any(l.startswith("FAIL " + p + " ") for p in ("C02", "C04", "C08", "C11", "C12", "C34", "C15"))]
+             not l.startswith("FAIL C15 ") and " model=fails" not in l]
     return {"lines": lines, "inputs": hist}
 
 
@@ -715,9 +749,18 @@ E2E_ASSUME = ["event-atomic driving (synctest.Wait after every API call start / 
               "client KeepAlive = 60000 s: the keep-alive loop of the client (not in the client model) never ticks within a history",
               "termination of the gateway session is compared as a fact only (end times are C13's)",
               "histories with two deadlines of the system at one virtual instant are not generated"]
+PROPS["C26"] = {
+    "theorems": ["C26_connect_then_simple_calls", "C26_and_final_disconnect", "C26_refuted"],
+    "drivers": ["drv_e2e.test"],
+    "units": [Unit("drv_e2e", unit_e2e)],
+    "mismatch_kinds": [r"."],
+    "rule": E2E_RULE + "; BBURST events: several broker PUBLISHes back to back with the client's datagrams held back by the link "
+                       "until the gateway has handled all of them (a burst in flight)",
+    "assumptions": E2E_ASSUME,
+}
 PROPS["C16"] = {
     "theorems": ["C16_retransmission_is_the_same_packet_with_DUP", "C16_gateway_stops_after_RetryCount",
-                 "C16_client_answers_every_PUBREL"],
+                 "C16_gateway_relays_every_step", "C16_client_answers_every_PUBREL"],
     "drivers": ["drv_e2e.test", "drv_gw.test", "drv_client.test"],
     "units": [Unit("drv_e2e", unit_e2e), Unit("drv_gw", unit_gw), Unit("drv_client", unit_client)],
     "mismatch_kinds": [r"^(C2G|G2C|BR|BS|CB|RET)", r"EXTRA (C2G|G2C|BR|BS)", r"MISSING (C2G|G2C|BR|BS)",
@@ -737,18 +780,20 @@ def escalate_with(kind, binary_name, cmp_cmd):
     def fn(ctx, unit_result):
         hist = unit_result.get("inputs")
         d = os.path.dirname(hist)
-        res = [f for f in os.listdir(d) if f.endswith(".res")]
+        res = [f for f in sorted(os.listdir(d)) if f.endswith(".res") and f != "ext.res"]
         if not res:
             return []
         res = os.path.join(d, res[0])
         xh, xt, xr = os.path.join(d, "ext.hist"), os.path.join(d, "ext.impl"), os.path.join(d, "ext.res")
+        if cached(xr):      # another property's check already ran the search on these results
+            return [l for l in open(xr).read().splitlines() if l.startswith("FAIL ")]
         rc, out, _ = core.run("%s ext-%s %s %s %s" % (core.DRIVER, kind, hist, res, xh))
         if rc != 0 or not cached(xh):
             return []
         err = run_sharded(ctx.bin(binary_name), xh, xt, binary_name)
         if err:
             return []
-        rc, out, _ = core.run("%s %s %s %s > %s" % (core.DRIVER, cmp_cmd, xh, xt, xr))
+        rc, out, _ = core.run("%s %s %s %s > %s.tmp && mv %s.tmp %s" % (core.DRIVER, cmp_cmd, xh, xt, xr, xr, xr))
         if rc != 0:
             return []
         return [l for l in open(xr).read().splitlines() if l.startswith("FAIL ")]
